@@ -229,6 +229,7 @@ def base_plan(tier, seed, classes=('pess', 'opt', 'mcs'), opt_scripts=True, thre
             pr = fam(cls)
             if pr:
                 plan.append((cls, pr, par))
+        plan.append((cls, programs.crowd(cls), dict(pb=1 if q else 2, max_exec=400 if q else 6000)))
         # seeded random schedules (any number of preemptions) of the 3-thread products complement the bounded search
         if three:
             plan.append((cls, programs.cross3(cls, CONV + ('X',), MODES3, MODES3, tag='r3'), dict(mode='random', max_exec=12 if q else 300)))
@@ -285,6 +286,8 @@ def check_c10(prop, tier, seed):
         conv = CONV + (('GTIUP',) if cls == 'opt' else ())
         plan.append((cls, programs.cross2(cls, conv, lib, tag='cv2'), dict(pb=2 if q else 3, max_exec=4000 if q else 60000)))
         plan.append((cls, programs.cross3(cls, conv, MODES3, MODES3, tag='cv3'), dict(pb=1 if q else 2, max_exec=800 if q else 20000)))
+        plan.append((cls, programs.crowd(cls), dict(pb=1 if q else 2, max_exec=400 if q else 6000)))
+        plan.append((cls, programs.cross3(cls, conv, MODES3, MODES3, tag='cr3'), dict(mode='random', max_exec=12 if q else 300)))
         if not q:
             plan.append((cls, programs.cross3(cls, conv, conv, MODES3, tag='cv3b'), dict(pb=2, max_exec=8000)))
     res = lock_abs_check(prop, tier, seed, ['CkConvAtomic', 'CkCompat'], plan)
